@@ -9,6 +9,7 @@ from hypothesis import strategies as st
 
 from .. import gens, refs
 from ..runner import Sub, HarnessError
+from . import probes
 from .common import L, Checker, arr
 
 PROPERTY_ID = "C16"
@@ -69,8 +70,8 @@ def entries():
     add("qpow", 4, lambda a: b.qpow(np.array(a, dtype=object), 3))
     add("conj", 4, lambda a: b.conj(np.array(a, dtype=object)))
     # det is marked 'SymPy: supported' and reachable as base.det although it is missing from base.__all__
-    add("det/2", 4, lambda a: b.det(np.array([[a[0], a[1]], [a[2], a[3]]], dtype=object if _anysym(a) else float)))
-    add("det/3", 6, lambda a: b.det(np.array([[a[0], a[1], 1], [a[2], a[3], a[4]], [0, a[5], 2]], dtype=object if _anysym(a) else float)))
+    add("op/det/2", 4, lambda a: b.det(np.array([[a[0], a[1]], [a[2], a[3]]], dtype=object if _anysym(a) else float)))
+    add("op/det/3", 6, lambda a: b.det(np.array([[a[0], a[1], 1], [a[2], a[3], a[4]], [0, a[5], 2]], dtype=object if _anysym(a) else float)))
     add("op/det(rotx)", 1, lambda a: b.det(b.rotx(a[0])))       # sin^2 + cos^2: a composed expression, value only (pose.det() is marked 'not supported')
     # class members
     add("SE3.Rx", 1, lambda a: L.SE3.Rx(a[0]).A)
@@ -107,6 +108,18 @@ def entries():
     add("SE3.Eul/tuple", 3, lambda a: L.SE3.Eul((a[0], a[1], a[2])).A)
     add("SE3.Rx/2", 2, lambda a: np.stack([np.asarray(x) for x in L.SE3.Rx([a[0], a[1]]).data]))
     add("SE3.Tx/2", 2, lambda a: np.stack([np.asarray(x) for x in L.SE3.Tx((a[0], a[1])).data]))
+    # long angle sequences (vectorised constructors may switch code path with the length), both units
+    def longseq(a, n):
+        base_ = [a[0], a[1], a[2], a[0] + a[1] + 0.125, 2 * a[2] + 0.25, a[1] + 2 * a[0] + 0.375, 0.5, a[2] + 1, -a[0] - 0.0625]
+        return [base_[i % len(base_)] + (i // len(base_)) for i in range(n)]
+    for cname in ("SE3", "SO3"):
+        for ax in ("Rx", "Ry", "Rz"):
+            for n_ in (10, 33):
+                for unit in ("rad", "deg"):
+                    add("%s.%s/%d/%s" % (cname, ax, n_, unit), 3,
+                        (lambda cname, ax, n_, unit: lambda a: np.stack([np.asarray(x) for x in getattr(getattr(L, cname), ax)(longseq(a, n_), unit).data]))(cname, ax, n_, unit))
+    for ax in ("Tx", "Ty", "Tz"):
+        add("SE3.%s/12" % ax, 3, (lambda ax: lambda a: np.stack([np.asarray(x) for x in getattr(L.SE3, ax)(longseq(a, 12)).data]))(ax))
     # a scalar combined with a pose
     add("op/SE3*s", 2, lambda a: L.SE3.Rx(a[0]) * a[1])
     add("op/s*SE3", 2, lambda a: a[1] * L.SE3.Rx(a[0]))
@@ -186,7 +199,56 @@ def gen_all(tier):
                 yield {"kind": "sym", "entry": name, "point": pt, "mask": mask, "alt": [0.37, 0.91, 1.23, 0.58, 0.77, 1.09]}
 
 
+SYMHIST = {
+    "SE3": (lambda a, b: L.SE3.Rx(a) * L.SE3.Ty(b), lambda a, b: L.SE3.Rz(a) * L.SE3.Tx(b)),
+    "SO3": (lambda a, b: L.SO3.Rx(a) * L.SO3.Ry(b), lambda a, b: L.SO3.Rz(a) * L.SO3.Rx(b)),
+}
+
+
+def gen_symhist(tier):
+    for cn in sorted(SYMHIST):
+        for mut in probes.MUTATIONS:
+            for numeric_partner in (True, False):
+                yield {"kind": "symhist", "cls": cn, "mutation": mut, "numeric_partner": numeric_partner, "point": [0.3, -0.7, 1.1, 0.5]}
+
+
+def _symhist(case):
+    """symbolic pose objects are mutable lists too: a symbolic result may not depend on what the object held earlier"""
+    import sympy
+    cn = case["cls"]
+    c = Checker("symhist", cls=cn, mutation=case["mutation"])
+    a, b_, cc, d = sympy.symbols("a b c d", real=True)
+    mkx, mky = SYMHIST[cn]
+    X, Y = mkx(a, b_), mky(cc, d)
+    P = mky(0.4, 0.6) if case["numeric_partner"] else mky(d, a)
+    p3 = [1.0, 2.0, 3.0]
+    calls = [("inv", lambda Z: Z.inv().A), ("X*P", lambda Z: (Z * P).A), ("P*X", lambda Z: (P * Z).A), ("X/P", lambda Z: (Z / P).A),
+             ("P/X", lambda Z: (P / Z).A), ("inv*X", lambda Z: (Z.inv() * Z).A), ("X*p", lambda Z: Z * p3), ("inv*p", lambda Z: Z.inv() * p3), ("R", lambda Z: Z.R)]
+    if cn == "SE3":
+        calls += [("t", lambda Z: Z.t), ("Ad", lambda Z: Z.Ad())]
+    first = {n_: probes.outcome(f, X) for n_, f in calls}
+    try:
+        probes.mutate(X, Y, case["mutation"])
+    except Exception as e:  # noqa
+        c.fail("mutation", "%s on a symbolic %s raised %s: %s" % (case["mutation"], cn, type(e).__name__, e))
+        return c.out
+    F = getattr(L, cn)([np.array(v, copy=True) for v in X.data], check=False)
+    subs = dict(zip((a, b_, cc, d), [sympy.Float(v, 30) for v in case["point"]]))
+
+    def num(o):
+        if o[0] != "ok":
+            return o
+        return ("ok", np.array(sympy.Matrix(np.atleast_2d(np.asarray(o[1], dtype=object))).subs(subs).evalf(20), dtype=float))
+    for n_, f in calls:
+        oX, oF = probes.outcome(f, X)[0], probes.outcome(f, F)[0]
+        if not probes.same(num(oX), num(oF), 1e-12):
+            c.fail("%s/stale" % n_, "symbolic %s.%s after %s differs (at a=%.2f, ...) from the same call on a new object holding the same values" % (cn, n_, case["mutation"], case["point"][0]), call=n_)
+    return c.out
+
+
 def check_case(case):
+    if case.get("kind") == "symhist":
+        return _symhist(case)
     import sympy
     n, f = table()[case["entry"]]
     name = case["entry"]
@@ -251,6 +313,8 @@ def check_case(case):
 
 
 def classify(case):
+    if case.get("kind") == "symhist":
+        return {"kind:symhist": True, "symhist:" + case["cls"]: True, "nontrivial": True}
     n, _ = table()[case["entry"]]
     mask = case["mask"][:n]
     pt = case["point"][:n]
@@ -264,5 +328,6 @@ def classify(case):
 def subchecks(tier):
     return [
         Sub("all_entries", gen=gen_all, shards=(8, 16)),
+        Sub("symbolic_history", gen=gen_symhist, shards=(4, 8)),
         Sub("sym", strategy=s_sym(), n=(150, 1500), shards=(16, 16), shrink=False),
     ]
